@@ -124,6 +124,21 @@ func c03Run(c *mon.Ctx, idx int) {
 				}
 			}
 		}
+		// two `matches` (or two `not matches`) on the SAME selector with
+		// different patterns: anything that fuses them into one pattern must
+		// keep them apart (inline flags of one must not reach the other)
+		if am, ok := A.(*xgen.Match); ok && (am.Op == xgen.OpMatches || am.Op == xgen.OpNotMatches) && r.Intn(2) == 0 {
+			bm := *am
+			pats := []string{"^def$", "^DEF$", "^abc$", "b$", "^.$", "(?i)^abc$", "(?s).", "x|y", "^[a-z]+$", "^$"}
+			bm.Lit = &xgen.Lit{S: pats[r.Intn(len(pats))], Style: xgen.StyleQuoted}
+			if r.Intn(2) == 0 {
+				am2 := *am
+				am2.Lit = &xgen.Lit{S: []string{"(?i)^abc$", "(?i)^web", "(?s)^a.*", "(?m)^x", "(?U)^a+", `\Qabc`, "(?i)^" + strings.ToLower(am.Lit.S)}[r.Intn(7)], Style: xgen.StyleQuoted}
+				A = &am2
+			}
+			B = &bm
+			c.Count("matches_twin_operands")
+		}
 		oa, ta, ok1 := evalText(A, r, node, opt)
 		ob, tb, ok2 := evalText(B, r, node, opt)
 		if !ok1 || !ok2 {
@@ -180,6 +195,41 @@ func c03Run(c *mon.Ctx, idx int) {
 				comps = append(comps, comp{name, chain, want})
 			}
 			c.Count("long_chains")
+		}
+		// very long chains (10^4 operands): a chain is not nesting
+		_, aSmall := A.(*xgen.Match)
+		_, bSmall := B.(*xgen.Match)
+		if aSmall && bSmall && idx%tierN(c.Tier, 500, 2000) < 3 && (a == "T" || a == "F") && (b == "T" || b == "F") && a != b && c.CounterValue("very_long_chains") < 1 {
+			n := tierN(c.Tier, 10500, 40000)
+			for _, isAnd := range []bool{true, false} {
+				// n operands B, then A at the very end; B must be the
+				// non-decisive outcome so that the fold reaches the end
+				nd, dec := B, A
+				ndo, deco := b, a
+				if (isAnd && b == "F") || (!isAnd && b == "T") {
+					nd, dec, ndo, deco = A, B, a, b
+				}
+				var chain xgen.Expr = dec
+				for i := 0; i < n; i++ {
+					if isAnd {
+						chain = &xgen.And{L: nd, R: chain}
+					} else {
+						chain = &xgen.Or{L: nd, R: chain}
+					}
+				}
+				_ = ndo
+				name := "or-chain-10k"
+				if isAnd {
+					name = "and-chain-10k"
+				}
+				// the non-decisive operands let the chain through: its outcome is the last operand's
+				if isAnd == (idx%2 == 0) {
+					comps = append(comps, comp{name, chain, deco})
+				} else {
+					comps = append(comps, comp{name + "-under-not", &xgen.Not{X: chain}, notTable(deco)})
+				}
+			}
+			c.Count("very_long_chains")
 		}
 		for _, cp := range comps {
 			c.Evals(1)
@@ -267,6 +317,7 @@ func c04NativeData() map[string]interface{} {
 	t := time.Date(2024, 10, 3, 12, 0, 0, 0, time.UTC)
 	return map[string]interface{}{
 		"ip": net.IP{10, 0, 0, 1}, "ip6": net.ParseIP("::1"), "t": t, "pt": &t, "big": big.NewInt(5), "hw": net.HardwareAddr{1, 2, 3}, "dur": time.Second, "url": &url.URL{Scheme: "http", Host: "h"},
+		"long": strings.Repeat("ab", 2048), "long2": strings.Repeat("x", 65536) + "y", "longb": []byte(strings.Repeat("ab", 4096)), "ch": make(chan int, 2), "nilch": (chan string)(nil),
 		"raw": json.RawMessage(`{"a":1}`), "rat": big.NewRat(1, 2), "mask": net.IPMask{255, 0}, "err": fmt.Errorf("boom"), "ips": []net.IP{{10, 0, 0, 1}}, "ts": []time.Time{t},
 	}
 }
@@ -276,7 +327,7 @@ func c04Run(c *mon.Ctx, idx int) {
 	if idx%40 == 0 {
 		// values of types with methods (TextMarshaler, Stringer, error, ...)
 		d := c04NativeData()
-		keys := []string{"ip", "ip6", "t", "pt", "big", "hw", "dur", "url", "raw", "rat", "mask", "err", "ips", "ts"}
+		keys := []string{"ip", "ip6", "t", "pt", "big", "hw", "dur", "url", "raw", "rat", "mask", "err", "ips", "ts", "long", "long2", "longb", "ch", "nilch", "long", "long2"}
 		k := keys[r.Intn(len(keys))]
 		c04Native(c, d, k, []string{`^10\.`, ".", "10.0.0.1", "5", "a", "2024", "", "1000000000", "^$"}[r.Intn(9)], k)
 	}
@@ -383,7 +434,7 @@ func init() {
 		NumCases:    func(tier string) int { return tierN(tier, 8000, 150000) },
 		Run:         c03Run,
 		Required: func(tier string) []string {
-			l := []string{"quantified_operand", "collision_datum_cases", "colliding_twin_operands", "long_chains", "cell:not/T", "cell:not/F", "cell:not/E"}
+			l := []string{"quantified_operand", "collision_datum_cases", "colliding_twin_operands", "matches_twin_operands", "long_chains", "very_long_chains", "cell:not/T", "cell:not/F", "cell:not/E"}
 			for _, op := range []string{"and", "or"} {
 				for _, a := range []string{"T", "F", "E"} {
 					for _, b := range []string{"T", "F", "E"} {
